@@ -56,15 +56,8 @@ def close(a, b, tol=1):
 
 def section_expect(dfs, body, total):
     disp = E.displayed_columns(dfs, body)
-    ncol = len(dfs["cols"])
-    w = body.get("col_rel_width")
-    if w is None:
-        w = [1] * ncol
-    elif not isinstance(w, list):
-        w = [w] * ncol
-    elif len(w) == 1 and ncol > 1:
-        w = w * ncol
-    dw = [w[j] for j in disp] if len(w) == ncol else None
+    w = E.rel_widths(dfs, body)
+    dw = [w[j] for j in disp] if w is not None else None
     return disp, dw
 
 
@@ -172,6 +165,11 @@ def gen_spec(rng):
     nc = len(spec["df"]["cols"])
     if "col_rel_width" in spec["body"] and rng.random() < 0.5:
         spec["body"]["col_rel_width"] = [round(rng.uniform(0.2, 10), rng.choice([1, 2, 3])) for _ in range(nc)]
+    sbn = spec["body"].get("subline_by") or []
+    if sbn and len(spec["body"].get("col_rel_width") or []) == nc and rng.random() < 0.4:
+        # documented short form: widths only for the columns left once the subline_by columns are gone
+        spec["body"]["col_rel_width"] = [w for c, w in zip(spec["df"]["cols"], spec["body"]["col_rel_width"])
+                                         if c["name"] not in sbn]
     page = spec.setdefault("page", {})
     if rng.random() < 0.5:
         page["col_width"] = round(rng.uniform(2, 12), rng.choice([0, 1, 2, 3]))
